@@ -87,11 +87,17 @@ def run_projects(chk, asts, again=0, config="native", want_oracles=("C01", "C02"
         for k2, v in th.items():
             acc[k2] = acc.get(k2, 0) + v
         acc["projects_wf"] = acc.get("projects_wf", 0) + (1 if model.get("wf") else 0)
-        if th.get("effort_exact_fail") or th.get("dep_fail") or th.get("container_fail") or th.get("back_fail") or th.get("team_exact_fail") or th.get("limit_fail") or th.get("dep_all_fail") or th.get("idle_fail") or th.get("fit_fail") or th.get("milestone_fail") or th.get("order_fail") or th.get("alap_idle_fail") or th.get("one_set_fail") or th.get("team_same_fail") or th.get("team_fit_fail") or th.get("alap_end_fail") or th.get("alt_effort_fail"):
+        if any(v for k2, v in th.items() if k2.endswith("_fail")):
             r["diffs"].append(f"model: a proved conclusion evaluates to false on the model's own run: {th}")
         # with several scenarios the implementation's final project end is the last scenario's
         obs_end = obs["end"] if si == len(obs["scenarios"]) - 1 else model["end"]
         ds = modelio.compare(p, model, sc, obs_end)
+        # the project calendar (Project.initScoreboards / isWorkingTime): the implementation keeps the last scenario's table
+        if si == len(obs["scenarios"]) - 1 and "projwork" in model and "projwork" in obs:
+            if [list(x) for x in model["projwork"]] != [list(x) for x in obs["projwork"]]:
+                a, b = model["projwork"], obs["projwork"]
+                k = next((j for j in range(min(len(a), len(b))) if list(a[j]) != list(b[j])), min(len(a), len(b)))
+                ds.append(f"project calendar: working runs differ at run {k}: model {a[k:k + 2]} impl {b[k:k + 2]} (table sizes {model.get('size')} / {obs.get('projsize')})")
         if len(obs["scenarios"]) > 1:
             # the implementation's warning list is per run, not per scenario: compare the union below
             ds = [d for d in ds if not d.startswith("warnings:")]
